@@ -5,7 +5,7 @@ import ast
 
 from ..absint import Interp, ObjV
 from ..forms import Const, Form, TupleV, mk_fn, vkey
-from ..rules import S
+from ..rules import S, check_late_binding
 from ..srcmodel import src_of
 
 EXPLANATION = (
@@ -205,6 +205,7 @@ def run(ctx):
     it = Interp(pkg, assumptions={"input": ("notinst", "optical_signal")})
     outs = it.run(fb)
     ctx.check("C11.4", bool(outs) and outs[0].kind == "raise" and outs[0].exc == "TypeError", fb, fb.node, "BPF: non-optical input", "raises TypeError", "non-optical input is not rejected with TypeError")
+    check_late_binding(ctx, "C11.5", ["devices.LPF", "devices.BPF"])
     ctx.require_min("C11.1", 6)
     ctx.require_min("C11.2", 10)
     ctx.require_min("C11.3", 1)
